@@ -98,6 +98,17 @@ def _evaluator(ctx: Ctx, fi: FuncInfo, nint: FuncInfo) -> Evaluator:
                 return _app("nint", ev.num(env, n.args[0]))
             if n.func.id == "int" and len(n.args) == 1:
                 return _app("int", ev.num(env, n.args[0]))
+        fn = n.func.id if isinstance(n.func, ast.Name) else (
+            n.func.attr if isinstance(n.func, ast.Attribute) and isinstance(
+                n.func.value, ast.Name) and n.func.value.id == "math"
+            else None)
+        if fn in ("radians", "degrees") and len(n.args) == 1 and \
+                not n.keywords:
+            # math.radians(x) = x * pi / 180 with the double closest to pi
+            import math
+            k = Fraction(math.pi) / 180
+            return ev.num(env, n.args[0]).scale(
+                k if fn == "radians" else 1 / k)
         return NotImplemented
     return make_evaluator(repo, fi, extra_call=hook)
 
